@@ -94,6 +94,7 @@ typedef struct {
 	bool mt;
 	uint64_t file_size;    // declared file size (file-info decoder)
 	bool no_finish;        // the coder does not support LZMA_FINISH
+	unsigned abandon_after; // != 0: stop calling after this many lzma_code calls (mid-stream abandon, handle-reuse priming)
 } drive_cfg;
 
 static size_t pick(c04_rng *g, unsigned style, bool out, size_t whole)
@@ -133,6 +134,11 @@ static void drive(lzma_stream *strm, const c04_op *op, const drive_cfg *cfg, c04
 	const uint64_t nseek_max = op->in_len / 4 + 8;
 
 	for (;;) {
+		if (cfg->abandon_after != 0 && r->calls >= cfg->abandon_after) {
+			r->capped = true;     // abandoned in the middle: the handle is left as it is
+			final = LZMA_OK;
+			break;
+		}
 		unsigned st = mixed ? (unsigned)c04_below(g, 9) : style;
 		size_t remaining = pos <= op->in_len ? op->in_len - pos : 0;
 		size_t in_chunk = pick(g, st, false, remaining);
@@ -326,9 +332,14 @@ static void drive(lzma_stream *strm, const c04_op *op, const drive_cfg *cfg, c04
 	}
 }
 
-// common epilogue of every lzma_stream entry point
+// common epilogue of every lzma_stream entry point; a reused handle (c04_run_stream_ep with reuse != NULL) is left alone:
+// no lzma_end, the next initialisation has to cope with whatever state the coder was left in
+static bool keep_handle;
+
 static void finish_strm(lzma_stream *strm, c04_res *r)
 {
+	if (keep_handle)
+		return;
 	lzma_end(strm);
 	if (strm->internal != NULL)
 		c04_bad(r, "lzma_end-left-internal");
@@ -338,15 +349,28 @@ static void finish_strm(lzma_stream *strm, c04_res *r)
 #define SUPPORTED_FLAGS (LZMA_TELL_NO_CHECK | LZMA_TELL_UNSUPPORTED_CHECK | LZMA_TELL_ANY_CHECK | LZMA_CONCATENATED \
 		| LZMA_IGNORE_CHECK | LZMA_FAIL_FAST)
 
-bool c04_run_stream_ep(const c04_op *op, c04_res *r)
+bool c04_is_stream_ep(const char *ep)
+{
+	static const char *const eps[] = { "stream", "auto", "lzip", "mt", "alone", "micro", "raw", "block", "index", "fileinfo" };
+	for (size_t i = 0; i < sizeof(eps) / sizeof(eps[0]); ++i)
+		if (!strcmp(ep, eps[i]))
+			return true;
+	return false;
+}
+
+bool c04_run_stream_ep(const c04_op *op, c04_res *r, lzma_stream *reuse, unsigned abandon_after)
 {
 	const char *ep = op->ep;
 	c04_rng g = { op->seed * 0x100000001B3ull + 0xC04 };
-	lzma_stream strm = LZMA_STREAM_INIT;
-	strm.allocator = &c04_alloc;
+	lzma_stream fresh = LZMA_STREAM_INIT;
+	fresh.allocator = &c04_alloc;
+	lzma_stream *const sp = reuse != NULL ? reuse : &fresh;
+	keep_handle = reuse != NULL;
+#define strm (*sp)
 	drive_cfg cfg;
 	memset(&cfg, 0, sizeof(cfg));
 	cfg.doc = GENERIC_DOC;
+	cfg.abandon_after = abandon_after;
 
 	if (!strcmp(ep, "stream") || !strcmp(ep, "auto") || !strcmp(ep, "lzip")) {
 		const uint32_t flags = (uint32_t)op->p[0];
@@ -544,4 +568,5 @@ bool c04_run_stream_ep(const c04_op *op, c04_res *r)
 		return true;
 	}
 	return false;
+#undef strm
 }
